@@ -330,6 +330,24 @@ def hand_format(name: str, rows: list, rng):
                     r[key] = r[key] * (rng.choice([0.5, 0.9]) / max(tot, 1e-9))
             out.append(r)
         return out, "hand:pctsp_low_prize"
+    if name == "smtwtp":
+        # benchmark-style integer data (OR-library wt files): integer processing times, weights and due dates;
+        # a job may take no time at all (the generator's range [0, max) includes 0).  Entry 0 stays the dummy.
+        out = []
+        for r in rows:
+            r = {k: v.clone() for k, v in r.items()}
+            n = r["job_process_time"].shape[0] - 1
+            pt = [float(rng.randint(0, 9)) for _ in range(n)]
+            if n >= 2 and rng.random() < 0.6:
+                pt[rng.randrange(n)] = 0.0
+            tot = max(sum(pt), 1.0)
+            r["job_process_time"] = torch.tensor([0.0] + pt, dtype=r["job_process_time"].dtype)
+            r["job_weight"] = torch.tensor([0.0] + [float(rng.randint(1, 10)) for _ in range(n)],
+                                           dtype=r["job_weight"].dtype)
+            r["job_due_time"] = torch.tensor([0.0] + [float(rng.randint(0, int(tot))) for _ in range(n)],
+                                             dtype=r["job_due_time"].dtype)
+            out.append(r)
+        return out, "hand:smtwtp_integer"
     return rows, "generator"
 
 
